@@ -62,5 +62,9 @@ var vpC01Targets = []vpC01Target{
 	{"REQUEST_HEADERS:/^K/", func(p vpPair) bool { return p.where == 2 && len(p.name) > 0 && vpLowerASCII(p.name)[0] == 'k' }, false, false},
 	{"REQUEST_HEADERS:/^\\S$/", func(p vpPair) bool { return p.where == 2 && len(p.name) == 1 }, false, false},
 	{"ARGS:/^\\S$/", func(p vpPair) bool { return vpArgs(p) && len(p.name) == 1 }, false, false},
+	// counts of whole plain collections (repeated names count once per value)
+	{"&ARGS_GET", func(p vpPair) bool { return p.where == 0 }, false, true},
+	{"&REQUEST_COOKIES", func(p vpPair) bool { return p.where == 3 }, false, true},
+	{"&REQUEST_HEADERS", func(p vpPair) bool { return p.where == 2 || p.where == 3 }, false, true},
 }
 
